@@ -303,7 +303,10 @@ static void lsqTwoPinCase(Rng &rng, CaseResult &r) {
 
 // (a)+(b) scaling on the NetModel level
 static void scaleModelCase(Rng &rng, CaseResult &r, bool dyadic) {
-  ModelSpec m = genModel(rng, false);
+  int api = (int)rng.range(0, 2);
+  // non-dyadic factors are compared with a tolerance, which needs the conditioning of the system: the dense system is
+  // available for the star model (any degree) and for two-pin nets (all models)
+  ModelSpec m = genModel(rng, !dyadic && api != 0);
   NetModel::Parameters P = tightParams(rng);
   if (dyadic && rng.chance(0.5)) { P.tolerance = (float)std::pow(10.0, rng.unif(-6, -2)); P.maxNbIterations = (int)rng.range(1, 200); }
   std::vector<float> pl(m.nc), target(m.nc), strength(m.nc);
@@ -311,8 +314,7 @@ static void scaleModelCase(Rng &rng, CaseResult &r, bool dyadic) {
   int kexp = (int)rng.range(-3, 4);
   if (kexp == 0) kexp = 2;
   float k = dyadic ? (float)std::ldexp(1.0, kexp) : (float)rng.pick(std::vector<double>{2.5, 7.0, 0.3});
-  int api = (int)rng.range(0, 2);
-  if (r.needSample()) r.sample = vf::J::obj().kv("what", dyadic ? "power-of-two weight scaling, bitwise" : "non-dyadic weight scaling, tolerance").kv("factor", (double)k).kv("api", api == 0 ? "solveStar" : api == 1 ? "solve" : "solveWithPenalty").kv("net_model", (int)P.netModel).kraw("model", specJson(m)).str();
+  if (r.needSample()) r.sample = vf::J::obj().kv("what", dyadic ? "power-of-two weight scaling, bitwise" : "non-dyadic weight scaling, tolerance").kv("factor", (double)k).kv("api", api == 0 ? "solveStar" : api == 1 ? "solve" : "solveWithPenalty").kv("net_model", (int)P.netModel).kraw("placement", vf::jarrd(pl)).kraw("target", vf::jarrd(target)).kraw("strength", vf::jarrd(strength)).kraw("model", specJson(m)).str();
   if (r.dumpOnly) return;
   NetModel a = build(m, 1.0f), b = build(m, k);
   std::vector<float> sa, sb;
@@ -333,23 +335,32 @@ static void scaleModelCase(Rng &rng, CaseResult &r, bool dyadic) {
       r.fail("C17:power-of-two-scaling-changes-the-solution", "factor " + std::to_string(k) + " api " + std::to_string(api) + " max difference " + std::to_string(e));
     }
   } else {
-    // only well-posed instances: every component anchored (otherwise the optimum is not unique)
+    // exact system of the unscaled problem: well-posed (positive definite) and well-conditioned instances only
     Dense D(m.nc);
+    bool tie = false;
     for (auto &t : m.nets) {
       std::vector<int> c;
       std::vector<double> o;
       if (!netPins(t, c, o)) continue;
-      int star = D.addNode();
-      for (size_t j = 0; j < c.size(); ++j) D.addPin(c[j], star, o[j], 0, 1.0);
+      if (api == 0) {
+        if (c.size() <= 2) D.addPin(c[0], c[1], o[0], o[1], t.w);
+        else { double w = t.w / c.size(); int star = D.addNode(); for (size_t j = 0; j < c.size(); ++j) D.addPin(c[j], star, o[j], 0, w); }
+      } else {
+        double p0 = (c[0] == -1 ? 0.0 : pl[c[0]]) + o[0], p1 = (c[1] == -1 ? 0.0 : pl[c[1]]) + o[1];
+        if (P.netModel == NetModelOption::BoundToBound && p0 == p1 && c[0] != c[1]) tie = true;
+        D.addPin(c[0], c[1], o[0], o[1], t.w / std::max((double)P.approximationDistance, std::fabs(p0 - p1)));
+      }
     }
-    if (api == 2) for (int i = 0; i < m.nc; ++i) D.addPin(i, -1, 0, 0, 1.0);
-    if (!D.positiveDefinite()) { r.count("skipped_not_positive_definite"); r.sig = "skip"; return; }
+    if (api == 2) for (int i = 0; i < m.nc; ++i) D.addPin(i, -1, 0.0, target[i], strength[i] / std::max(std::fabs((double)pl[i] - target[i]), (double)P.penaltyCutoffDistance));
+    if (tie || !D.positiveDefinite()) { r.count("skipped_not_positive_definite"); r.sig = "skip"; return; }
+    double c1 = cond1(D);
+    if (c1 > 2000) { r.count("skipped_ill_conditioned"); r.sig = "illcond"; return; }
     double span = m.span;
     for (int i = 0; i < m.nc; ++i) span = std::max(span, (double)std::max(std::fabs(target[i]), std::fabs(pl[i])));
     double e = 0;
     for (int i = 0; i < m.nc; ++i) e = std::max(e, (double)std::fabs(sa[i] - sb[i]));
     if (e > 2e-4 * span) r.count("within_10x_of_tolerance");
-    if (!(e <= 2e-3 * span)) r.fail("C17:weight-scaling-changes-the-solution", "factor " + std::to_string(k) + " api " + std::to_string(api) + " net model " + std::to_string((int)P.netModel) + " max difference " + std::to_string(e) + " span " + std::to_string(span));
+    if (!(e <= 2e-3 * span)) r.fail("C17:weight-scaling-changes-the-solution", "factor " + std::to_string(k) + " api " + std::to_string(api) + " net model " + std::to_string((int)P.netModel) + " max difference " + std::to_string(e) + " span " + std::to_string(span) + " cond " + std::to_string(c1));
   }
   r.count("compared");
   r.nontrivial = fractional;
